@@ -7,6 +7,7 @@ import (
 	"math/big"
 	"sort"
 	"strings"
+	"time"
 
 	"github.com/vipnode/vipnode/v2/internal/verif/vh"
 	"github.com/vipnode/vipnode/v2/internal/verif/vsched"
@@ -119,6 +120,7 @@ func c10Run(driver string, ops []string, perm []int) (outcomes []string, view st
 			op = strings.TrimPrefix(op, "after0:")
 			after0[i] = true
 		}
+		op = strings.TrimPrefix(op, "then:")
 		f := strings.Fields(op)
 		nonce := baseNonce + int64(1+i)
 		if strings.HasPrefix(op, "dup:") { // same request as the previous op
@@ -128,6 +130,24 @@ func c10Run(driver string, ops []string, perm []int) (outcomes []string, view st
 		calls[i] = c10Call(pw, cast, f, nonce)
 	}
 	res := make([]error, len(ops))
+	// "then:" requests follow, one at a time, once everything else has returned: they make what the
+	// racing requests left behind in fields no getter shows (check-in times) visible in the balances
+	var then []int
+	for i, op := range ops {
+		if strings.HasPrefix(op, "then:") {
+			then = append(then, i)
+		}
+	}
+	defer func() {
+		for _, i := range then {
+			res[i] = calls[i]()
+		}
+		outcomes = outcomes[:0]
+		for _, e := range res {
+			outcomes = append(outcomes, c10Classify(e))
+		}
+		view = c10View(pw, cast)
+	}()
 	if perm != nil {
 		for _, i := range perm {
 			res[i] = calls[i]()
@@ -135,8 +155,13 @@ func c10Run(driver string, ops []string, perm []int) (outcomes []string, view st
 	} else {
 		var fns []func()
 		done0 := make(chan struct{})
+		var names []string
 		for i := range calls {
 			i := i
+			if strings.HasPrefix(ops[i], "then:") {
+				continue
+			}
+			names = append(names, ops[i])
 			fns = append(fns, func() {
 				if after0[i] {
 					vsched.Recv(done0)
@@ -147,16 +172,20 @@ func c10Run(driver string, ops []string, perm []int) (outcomes []string, view st
 				}
 			})
 		}
-		vh.Par(ops, fns...)
+		vh.Par(names, fns...)
 	}
-	for _, e := range res {
-		outcomes = append(outcomes, c10Classify(e))
-	}
-	return outcomes, c10View(pw, cast)
+	return nil, ""
 }
 
 func c10Call(pw *vh.PoolWorld, cast *vh.Cast, f []string, nonce int64) func() error {
 	ctx := vh.CtxWith(pw.Host("ctx").Service())
+	if f[0] == "tick" { // time passes (one indivisible step of the clock)
+		d, err := time.ParseDuration(f[1])
+		if err != nil {
+			panic(err)
+		}
+		return func() error { vsched.Advance(d); return nil }
+	}
 	id := cast.ByName[f[1]]
 	switch f[0] {
 	case "upd":
@@ -210,15 +239,19 @@ var c10Scenarios = map[string][]string{
 	"same-client-thrice":   {"upd C1 H1,H2", "upd C1 H1", "upd C1 H2"},
 	// request 0 holds C1's turn without touching its check-in time; request 1 queues behind it;
 	// request 2 only arrives once request 0 has returned
-	"queued-then-late":       {"peer C1", "upd C1 H1,H2", "after0:upd C1 H1"},
-	"reconnect-vs-update":    {"conn C1", "upd C1 H1"},
-	"link-vs-update":         {"link W1 C2", "upd C2 H1,H2"},
-	"link-host-vs-update":    {"link W1 H1", "upd C1 H1"},
-	"withdraw-vs-update":     {"withdraw W1", "upd C1 H1"},
-	"peer-vs-update":         {"peer C1", "upd C1 H1"},
-	"three-way":              {"upd C1 H1", "upd C2 H1", "link W1 H1"},
-	"withdraw-link-update":   {"withdraw W1", "link W1 C2", "upd C2 H1"},
-	"two-withdraws-one-link": {"withdraw W1", "withdraw W1", "link W1 H2"},
+	"queued-then-late":    {"peer C1", "upd C1 H1,H2", "after0:upd C1 H1"},
+	"reconnect-vs-update": {"conn C1", "upd C1 H1"},
+	// the same while time passes, followed by one more keep-alive: whatever check-in time the race
+	// left behind decides what that keep-alive bills
+	"reconnect-vs-update-vs-clock": {"conn C1", "upd C1 H1", "tick 30s", "then:tick 40s", "then:upd C1 H1"},
+	"two-updates-vs-clock":         {"upd C1 H1,H2", "upd C1 H1", "tick 30s", "then:tick 40s", "then:upd C1 H1"},
+	"link-vs-update":               {"link W1 C2", "upd C2 H1,H2"},
+	"link-host-vs-update":          {"link W1 H1", "upd C1 H1"},
+	"withdraw-vs-update":           {"withdraw W1", "upd C1 H1"},
+	"peer-vs-update":               {"peer C1", "upd C1 H1"},
+	"three-way":                    {"upd C1 H1", "upd C2 H1", "link W1 H1"},
+	"withdraw-link-update":         {"withdraw W1", "link W1 C2", "upd C2 H1"},
+	"two-withdraws-one-link":       {"withdraw W1", "withdraw W1", "link W1 H2"},
 }
 
 func c10Serial(driver, scen string, bound int) vh.Unit {
@@ -231,7 +264,7 @@ func c10SerialNamed(prefix, driver, scen string, bound int) vh.Unit {
 	return vh.Unit{Name: name, Run: func(u *vh.U) {
 		// differential oracle: every one-at-a-time ordering of the same requests on the real code
 		allowed := map[string]string{}
-		for _, perm := range permutations(len(ops)) {
+		for _, perm := range permutations(c10Racing(ops)) {
 			if !c10Respects(ops, perm) {
 				continue
 			}
@@ -266,7 +299,7 @@ func c10SerialNamed(prefix, driver, scen string, bound int) vh.Unit {
 							sub = append(sub, strings.TrimPrefix(ops[i], "dup:"))
 						}
 					}
-					for _, perm := range permutations(len(sub)) {
+					for _, perm := range permutations(c10Racing(sub)) {
 						_, v2 := c10Run(driver, sub, perm)
 						if c10Balances(v2) == c10Balances(view) {
 							return "", ""
@@ -292,7 +325,7 @@ func c10RacePass(driver, scen string, reps int) vh.Unit {
 	ops := c10Scenarios[scen]
 	return vh.Unit{Name: name, Run: func(u *vh.U) {
 		allowed := map[string]bool{}
-		for _, perm := range permutations(len(ops)) {
+		for _, perm := range permutations(c10Racing(ops)) {
 			out, view := c10Run(driver, ops, perm)
 			allowed[fmt.Sprint(out)+"|"+c10Balances(view)] = true
 		}
@@ -308,6 +341,17 @@ func c10RacePass(driver, scen string, reps int) vh.Unit {
 		u.Note("free-running -race repetitions: sampling, not deciding")
 		u.Sample(fmt.Sprintf("%d free-running repetitions of %v under the race detector", reps, ops))
 	}}
+}
+
+// c10Racing: the number of racing requests ("then:" requests come last and are not permuted).
+func c10Racing(ops []string) int {
+	n := 0
+	for _, op := range ops {
+		if !strings.HasPrefix(op, "then:") {
+			n++
+		}
+	}
+	return n
 }
 
 // c10Respects: requests marked after0 come after request 0 in a serial order.
